@@ -1196,4 +1196,15 @@ without connection, and such a peer has no context. -/
 theorem occupied_unreachable {s : State} (h : Reachable s) (p : Peer) (hp : p ∉ s.connected) : p ∉ s.ctx :=
   fun hc => hp (ctx_connected h p hc)
 
+
+/-- Whatever `run` reaches is reachable (labels the engine cannot produce are skipped). -/
+theorem reachable_run {s : State} (h : Reachable s) (ls : List Label) : Reachable (run s ls) := by
+  induction ls generalizing s with
+  | nil => exact h
+  | cons l ls ih =>
+    unfold run
+    cases hs : step s l with
+    | none => exact ih h
+    | some s' => exact ih (.step l h hs)
+
 end Litep2pVerif.Kad.Coordinator
